@@ -1574,7 +1574,11 @@ class Kconfig(object):
                                 self.report.add_record(DefaultValuesArea, sym_or_choice=sym, promptless=True)
                 # If value is supposed to be a default and symbol has a prompt, save it for later
                 elif any(node.prompt is not None for node in sym.nodes):
-                    sym.present_in_current_sdkconfig = True
+                    # The default value is not applied yet, so whether this line selects the choice is
+                    # decided by the value in the file, not by the symbol's current (Kconfig) value.
+                    sym._present_in_current_sdkconfig = True
+                    if sym.choice and val == "y":
+                        sym.choice.present_in_current_sdkconfig = True
                     if is_main_sdkconfig:
                         sym._sdkconfig_value = val
                         sym._loaded_as_default = True
